@@ -182,6 +182,14 @@ func runCheck(id, tier, repo, verif string, seed int, writeEv bool) int {
 		r *ObResult
 	}
 	var failed []*ObResult
+	// functions with any non-proved obligation, including ones this property does not claim:
+	// the failed fact is assumed afterwards, so later covers there may be vacuous
+	unprovedFuncs := map[string]bool{}
+	for _, r := range res.Results {
+		if r.Kind != "cover" && r.Status != "proved" {
+			unprovedFuncs[r.Func] = true
+		}
+	}
 	for _, r := range res.Results {
 		if r.Kind == "cover" {
 			covers++
@@ -240,6 +248,9 @@ func runCheck(id, tier, repo, verif string, seed int, writeEv bool) int {
 	// a failed obligation is assumed after it is reported, so later covers of the same
 	// function may be vacuous as a consequence: that is not a machinery error
 	failedFuncs := map[string]bool{}
+	for f := range unprovedFuncs {
+		failedFuncs[f] = true
+	}
 	for _, r := range failed {
 		failedFuncs[r.Func] = true
 	}
